@@ -313,6 +313,38 @@ class VList(V):
         return f"List[{self.kind}](n={self.n})"
 
 
+class VStruct(V):
+    """An object of a repository class held *by value* (all fields data).  Used when objects
+    are stored in symbolic sequences / yielded: aliasing and later mutation are not modelled
+    (the resources concerned are immutable after construction)."""
+
+    def __init__(self, cls, fields):
+        self.cls = cls
+        self.fields = dict(fields)
+
+    @property
+    def kind(self):
+        return "struct:" + self.cls.qualname
+
+    def leaves(self):
+        return [l for k in self.fields for l in self.fields[k].leaves()]
+
+    def rebuild(self, leaves):
+        out = {}
+        p = 0
+        for k, v in self.fields.items():
+            n = len(v.leaves())
+            out[k] = v.rebuild(leaves[p : p + n])
+            p += n
+        return VStruct(self.cls, out)
+
+    def __repr__(self):
+        return f"Struct[{self.cls.name}]({', '.join(self.fields)})"
+
+
+STRUCT_RESOLVER = None  # set by the registry: qualname -> (ClassInfo, {field: kind})
+
+
 class VRef(V):
     """Reference to a heap cell holding an object or a mutable container."""
 
@@ -419,6 +451,8 @@ def coerce(v: V, like: V) -> V:
         return v
     if isinstance(like, VNone) and isinstance(v, VNone):
         return v
+    if isinstance(like, VStruct) and isinstance(v, VStruct) and v.cls.qualname == like.cls.qualname:
+        return VStruct(like.cls, {k: coerce(v.fields[k], like.fields[k]) for k in like.fields})
     raise Unsupported(f"cannot coerce {v!r} to shape {like.kind}")
 
 
@@ -499,6 +533,10 @@ def eq(a: V, b: V):
         if len(a.items) != len(b.items):
             return z3.BoolVal(False)
         return z3.And([eq(x, y) for x, y in zip(a.items, b.items)] + [z3.BoolVal(True)])
+    if isinstance(a, VStruct) and isinstance(b, VStruct):
+        if a.cls.qualname != b.cls.qualname:
+            return z3.BoolVal(False)
+        return z3.And([eq(a.fields[k], b.fields[k]) for k in a.fields] + [z3.BoolVal(True)])
     if isinstance(a, VMap) and isinstance(b, VMap):
         if a.ksort() != b.ksort():
             return z3.BoolVal(False)
@@ -564,6 +602,9 @@ def fresh(kind: str, name: str, namer=None) -> V:
     if kind.startswith("opaque:"):
         cls = kind[len("opaque:") :]
         return VOpaque(mk(name, usort(cls)), cls)
+    if kind.startswith("struct:"):
+        ci, fkinds = STRUCT_RESOLVER(kind[7:])
+        return VStruct(ci, {f: fresh(k, f"{name}.{f}", namer) for f, k in fkinds.items()})
     if kind.startswith("opt[") and kind.endswith("]"):
         inner = fresh(kind[4:-1], name + ".v", namer)
         return VOpt(mk(name + ".none", BOOL), inner)
@@ -599,6 +640,10 @@ def fresh_like(v: V, name: str) -> V:
 def wellformed(v: V):
     """Constraints every value of this shape satisfies (list lengths >= 0)."""
     out = []
+    if isinstance(v, VStruct):
+        for f in v.fields.values():
+            out += wellformed(f)
+        return out
     if isinstance(v, VList) and v.items is None:
         out.append(v.n >= 0)
     elif isinstance(v, VTuple):
